@@ -1,4 +1,4 @@
-import FluteModel.Lemmas.SchedPrio
+import FluteModel.Lemmas.SchedRR
 /-
   C13 - Scheduling: FIFO admission, multiplex bound (strict priority and round robin: see below).
   Interleave window (`open blocks ≤ interleave_blocks`, opened in increasing SBN) is a property of one
@@ -100,17 +100,38 @@ theorem strict_priority_partial (cfg : Cfg) (tbl : List Nat) (ops : List Op) (pr
   obtain ⟨h1, h2⟩ := read_due cfg tbl ops pre post q j c f now ticks hsess hjs hf hg hs hlt
   exact ⟨h1, fun p t i b e => prio_le_of_sorted cfg tbl ops pre post q hsorted hsess p (h2 p t i b e)⟩
 
-/-- Round robin, the mechanism: `read_priority_queue` polls the slots cyclically starting at `index`, the slot that
-    returned a packet is followed by `index := its successor`, and a slot with a due packet that lies between is
-    never skipped (`Lemmas/SchedPrio.readQueue_due`: with `rrDist index j n < steps` the due slot `j` is reached
-    unless an earlier slot of the same queue returned a packet).  Stated here for the index only.
-    PARTIAL: the trace-level clause ("between two consecutive packets of one slot every other slot with a due
-    packet emitted one") is checked by the engine's oracle `C13:round-robin`, not proved. -/
-theorem round_robin_partial (k : Nat) (s : State) (q : QSess) (now : Nat) (ticks : List (Nat × Nat))
-    (h : q.index < q.slots.length) :
-    (readQueue k s q now ticks).2.1.index < (readQueue k s q now ticks).2.1.slots.length ∧
-    ((readQueue k s q now ticks).2.1.prio, (readQueue k s q now ticks).2.1.slots.length) = (q.prio, q.slots.length) :=
-  ⟨readQueue_idx k s q now ticks h, readQueue_shape k s q now ticks⟩
+/-- Round robin inside one priority queue, for one call of `read_priority_queue` (`readQueue`, the function `read`
+    runs on every queue, with `steps = number of slots`): let slot `j` hold a transfer `c` in progress whose next
+    packet is due at `now` (pacing gate open, encoder neither drained nor stopped; the other slots hold other
+    objects).  If the call returns an object packet then EITHER it is `c`'s packet, OR it is the packet of a slot
+    polled before `j` and afterwards (1) the round-robin index is strictly closer to `j` (cyclic distance `rrDist`),
+    (2) slot `j` still holds `c` with the same encoder state and (3) `c`'s object is untouched (same `TransferInfo`,
+    so it is still due at `now`).  Iterating: a due slot is served after at most `n - 1` packets of its peers, and a
+    slot never emits twice while a due peer waits - the slots alternate.
+    PARTIAL: stated for the queue-level function; the lift to two consecutive `read`s (where queues of higher
+    priority and the FDT session may interpose) is not formalised - the trace-level clause is checked by the
+    engine's oracle `C13:round-robin`. -/
+theorem round_robin_partial (s : State) (q : QSess) (j : Nat) (c : Cur) (f : FileDesc) (now : Nat)
+    (ticks : List (Nat × Nat)) (hidx : q.index < q.slots.length)
+    (hjs : q.slots[j]? = some (some c)) (hf : getF s.objs c.key = some f) (htr : f.info.transferring = true)
+    (hoth : ∀ i c0, i ≠ j → q.slots[i]? = some (some c0) → c0.key ≠ c.key)
+    (hg : gateBlocked f now = false) (hs : c.enc.stopped = false) (hlt : c.enc.sent < f.nPk)
+    (p t i : Nat) (b : Bool) (hout : (readQueue q.slots.length s q now ticks).2.2 = Out.pkt p t i b) :
+    t = c.key ∨
+    (t ≠ c.key ∧
+     rrDist (readQueue q.slots.length s q now ticks).2.1.index j q.slots.length < rrDist q.index j q.slots.length ∧
+     (readQueue q.slots.length s q now ticks).2.1.slots[j]? = some (some c) ∧
+     ∃ f', getF (readQueue q.slots.length s q now ticks).1.objs c.key = some f' ∧ f'.info = f.info ∧ f'.nSym = f.nSym) := by
+  have hj : j < q.slots.length := by
+    rcases Nat.lt_or_ge j q.slots.length with h | h
+    · exact h
+    · rw [List.getElem?_eq_none h] at hjs; cases hjs
+  have hkept : Kept c.key f (c.key ∈ s.files) s := ⟨⟨f, hf, rfl, rfl, rfl⟩, Iff.rfl⟩
+  rcases readQueue_rr htr c j q.slots.length rfl now hg hs hlt hj q.slots.length s q ticks hkept rfl hidx hjs hoth
+      (rrDist_lt _ _ _ hidx hj) p t i b hout with h | ⟨h1, h2, h3, h4⟩
+  · exact Or.inl h
+  · obtain ⟨f', e1, e2, e3, _⟩ := h4.obj
+    exact Or.inr ⟨h1, h2, h3, f', e1, e2, e3⟩
 
 /-! non-vacuity: two objects multiplexed in one queue with 2 slots, a third one waiting -/
 def cfg2 : Cfg := { mode := .full, fdtCarousel := .delay 1000, fdtDuration := 3600000000000, fdtStartId := 1, queues := [(0, 2)] }
@@ -125,5 +146,13 @@ example : ∃ q c f, (run (init cfg2 [1]) hist).sessions = [] ++ q :: [] ∧ q.s
     getF (run (init cfg2 [1]) hist).objs c.key = some f ∧ gateBlocked f 5 = false ∧ c.enc.stopped = false ∧
     c.enc.sent < f.nPk := by
   refine ⟨_, _, _, rfl, rfl, rfl, ?_, ?_, ?_⟩ <;> decide
+
+/-- non-vacuity of `round_robin_partial`, second alternative: slot 1 (TOI 2) is due, the index points at slot 0
+    (TOI 1, also due): the call returns TOI 1's packet and moves the index onto slot 1 -/
+example : ∃ q, (run (init cfg2 [1]) hist).sessions = [q] ∧ q.index = 0 ∧
+    (q.slots.map (fun c => c.map (fun c => c.key))) = [some 1, some 2] ∧
+    (∃ b, (readQueue q.slots.length (run (init cfg2 [1]) hist) q 5 []).2.2 = Out.pkt 0 1 1 b) ∧
+    (readQueue q.slots.length (run (init cfg2 [1]) hist) q 5 []).2.1.index = 1 := by
+  refine ⟨_, rfl, ?_, ?_, ⟨false, ?_⟩, ?_⟩ <;> decide
 
 end Flute.Props.C13
